@@ -837,6 +837,82 @@ fn ctleval_line(w: &mut dyn Write, r: &mut Rng, twcs: &[TwcSpec], nhelpers: usiz
     writeln!(w, "ctleval {} = {}", join(&v), match res { Ok(a) => join(&a.into_iter().flat_map(ext2).collect::<Vec<_>>()), Err(_) => "panic".into() }).unwrap();
 }
 
+/// C11 unit level: `eval_cross_table_lookup_checks_circuit` against the native evaluator on the same explicit
+/// values (random looking-table selections incl. a table repeated among the looking tables, with and without
+/// helper columns). Lines `c11 ctl-evaluator <case> = <1|0> # exp=1 native=ok outer=<ok|differs|..>`.
+pub fn ctl_circuit_cases(w: &mut dyn Write, r: &mut Rng, count: usize) -> usize {
+    use plonky2::iop::witness::{PartialWitness, WitnessWrite};
+    use plonky2::plonk::circuit_builder::CircuitBuilder;
+    use plonky2::plonk::circuit_data::CircuitConfig;
+    use starky::constraint_consumer::RecursiveConstraintConsumer;
+    use starky::evaluation_frame::{StarkEvaluationFrame, StarkFrame};
+    let mut n = 0;
+    for i in 0..count {
+        let degree = 3usize;
+        let k = 1 + (i % 4);                       // number of looking selections batched into this Z
+        let twcs: Vec<TwcSpec> = (0..k).map(|j| looking_variant(0, (i + j) % 5)).collect();
+        // the library gives a repeated table ceil(k / (degree - 1)) helper columns; `CtlZData::new` (public) also
+        // allows two selections WITHOUT helper columns, which both evaluators handle in a branch of their own
+        let nhelpers = if k == 1 || (k == 2 && i % 8 >= 4) { 0 } else { k.div_ceil(degree - 1) };
+        let na = 1 + r.below(2) as usize;
+        let alphas: Vec<F> = (0..na).map(|_| rf(r)).collect();
+        let (zl, l0, ll) = (rfe(r), rfe(r), rfe(r));
+        let hs: Vec<FE> = (0..nhelpers).map(|_| rfe(r)).collect();
+        let (lz, nz) = (rfe(r), rfe(r));
+        let (beta, gamma) = (rf(r), rf(r));
+        let lv: Vec<FE> = (0..4).map(|_| rfe(r)).collect();
+        let nv: Vec<FE> = (0..4).map(|_| rfe(r)).collect();
+        let cols: Vec<Vec<starky::lookup::Column<F>>> = twcs.iter().map(|t| t.cols.iter().map(|c| c.to_column()).collect()).collect();
+        let filters = || -> Vec<starky::lookup::Filter<F>> { twcs.iter().map(|t| t.filter.to_filter()).collect() };
+        let alphas_e: Vec<FE> = alphas.iter().map(|a| feb(*a)).collect();
+        let native = catch_unwind(AssertUnwindSafe(|| {
+            let vars = StarkFrame::<FE, FE, 4, 0>::from_values(&lv, &nv, &[]);
+            let cv = starky::verif_hooks::ctl_check_vars::<F, D>(hs.clone(), lz, nz, starky::lookup::GrandProductChallenge { beta, gamma },
+                         cols.iter().map(|c| &c[..]).collect(), filters());
+            let mut consumer = starky::constraint_consumer::ConstraintConsumer::<FE>::new(alphas_e.clone(), zl, l0, ll);
+            starky::verif_hooks::eval_ctl_checks_ext::<F, S4, D>(&vars, &[cv], &mut consumer, degree);
+            consumer.accumulators()
+        }));
+        let circuit = catch_unwind(AssertUnwindSafe(|| {
+            let mut b = CircuitBuilder::<F, D>::new(CircuitConfig::standard_recursion_config());
+            let lv_t = b.add_virtual_extension_targets(4);
+            let nv_t = b.add_virtual_extension_targets(4);
+            let hs_t = b.add_virtual_extension_targets(nhelpers);
+            let (lz_t, nz_t) = (b.add_virtual_extension_target(), b.add_virtual_extension_target());
+            let (beta_t, gamma_t) = (b.add_virtual_target(), b.add_virtual_target());
+            let alphas_t = b.add_virtual_targets(na);
+            let (zl_t, l0_t, ll_t) = (b.add_virtual_extension_target(), b.add_virtual_extension_target(), b.add_virtual_extension_target());
+            let zero = b.zero_extension();
+            let vars = StarkFrame::<plonky2::iop::ext_target::ExtensionTarget<D>, plonky2::iop::ext_target::ExtensionTarget<D>, 4, 0>::from_values(&lv_t, &nv_t, &[]);
+            let cv = starky::verif_hooks::ctl_check_vars_target::<F, D>(hs_t.clone(), lz_t, nz_t, starky::lookup::GrandProductChallenge { beta: beta_t, gamma: gamma_t },
+                         cols.clone(), filters());
+            let mut consumer = RecursiveConstraintConsumer::<F, D>::new(zero, alphas_t.clone(), zl_t, l0_t, ll_t);
+            starky::verif_hooks::eval_ctl_checks_circuit::<F, S4, D>(&mut b, &vars, &[cv], &mut consumer, degree);
+            let acc = consumer.accumulators();
+            let mut pw = PartialWitness::new();
+            pw.set_extension_targets(&lv_t, &lv).unwrap();
+            pw.set_extension_targets(&nv_t, &nv).unwrap();
+            pw.set_extension_targets(&hs_t, &hs).unwrap();
+            pw.set_extension_target(lz_t, lz).unwrap(); pw.set_extension_target(nz_t, nz).unwrap();
+            pw.set_target(beta_t, beta).unwrap(); pw.set_target(gamma_t, gamma).unwrap();
+            for (t, a) in alphas_t.iter().zip(&alphas) { pw.set_target(*t, *a).unwrap(); }
+            pw.set_extension_target(zl_t, zl).unwrap(); pw.set_extension_target(l0_t, l0).unwrap(); pw.set_extension_target(ll_t, ll).unwrap();
+            let data = b.mock_build::<C>();
+            let wit = data.generate_witness(pw);
+            acc.iter().map(|t| plonky2::iop::witness::Witness::get_extension_target(&wit, *t)).collect::<Vec<FE>>()
+        }));
+        let (ok, outer) = match (&native, &circuit) {
+            (Ok(a), Ok(c)) => (a == c, if a == c { "ok".to_string() } else { "differs".to_string() }),
+            (Err(_), Err(_)) => (true, "both-panic".into()),
+            (Ok(_), Err(_)) => (false, format!("circuit-{}", panic_site())),
+            (Err(_), Ok(_)) => (false, "native-panic".into()),
+        };
+        writeln!(w, "c11 ctl-evaluator selections{k}-variant{} = {} # exp=1 native=ok outer={outer} helpers={nhelpers}", i % 5, ok as u8).unwrap();
+        n += 1;
+    }
+    n
+}
+
 /// `ctlsum nch <per table openings> <per CTL: looking tables, looked table, has_extra, [extra]> = 1|0|panic`
 fn ctlsum_line(w: &mut dyn Write, r: &mut Rng, k: usize) {
     let nch = 1 + r.below(3) as usize;
